@@ -193,10 +193,43 @@ def _check_main(ctx, rep: Report):
     # key lookup first
     for name in ("__contains__", "discard", "__getitem__"):
         d = ci.methods.get(name)
-        src = ast.unparse(d[0].node)
-        i_key = min([i for i in (src.find("in self._dict"),) if i >= 0] or [10**9])
-        i_item = src.find("self.key(")
-        ok = i_key < i_item
+        def events(fnode, depth=2):
+            """'key' = touches the key index, 'item' = extracts a key from the argument; source order, private methods inlined"""
+            aliases = {a_.targets[0].id for a_ in ast.walk(fnode) if isinstance(a_, ast.Assign) and len(a_.targets) == 1
+                       and isinstance(a_.targets[0], ast.Name) and ast.unparse(a_.value) == "self._dict"}
+            out = []
+            nodes = sorted((n_ for n_ in ast.walk(fnode) if hasattr(n_, "lineno")), key=lambda n_: (n_.lineno, n_.col_offset))
+            for n_ in nodes:
+                if isinstance(n_, ast.Call) and ast.unparse(n_.func) == "self.key":
+                    out.append("item")
+                elif isinstance(n_, ast.Call) and isinstance(n_.func, ast.Attribute) and ast.unparse(n_.func.value) == "self" \
+                        and n_.func.attr.startswith("_") and depth > 0:
+                    for nm in (n_.func.attr, f"_{ci.name}{n_.func.attr}"):
+                        dd = ci.methods.get(nm) or (ci.methods.get(nm[len(ci.name) + 1:]) if nm.startswith(f"_{ci.name}__") else None)
+                        if dd:
+                            out += events(dd[0].node, depth - 1)
+                            break
+                elif isinstance(n_, ast.Compare) and any(isinstance(o_, (ast.In, ast.NotIn)) for o_ in n_.ops) and \
+                        (ast.unparse(n_.comparators[0]) == "self._dict" or (isinstance(n_.comparators[0], ast.Name) and n_.comparators[0].id in aliases)):
+                    out.append("key")
+                elif isinstance(n_, ast.Subscript) and (ast.unparse(n_.value) == "self._dict" or (isinstance(n_.value, ast.Name) and n_.value.id in aliases)):
+                    out.append("key")
+                elif isinstance(n_, ast.Call) and isinstance(n_.func, ast.Attribute) and n_.func.attr in ("pop", "get", "__contains__") and \
+                        (ast.unparse(n_.func.value) == "self._dict" or (isinstance(n_.func.value, ast.Name) and n_.func.value.id in aliases)):
+                    out.append("key")
+            return out
+        evs = events(d[0].node)
+        ok = "key" in evs and ("item" not in evs or evs.index("key") < evs.index("item"))
+        # presence in the key index is decided by `in` / KeyError, never by the truthiness (or None-ness) of the stored item
+        par_ = {id(ch_): p_ for p_ in ast.walk(d[0].node) for ch_ in ast.iter_child_nodes(p_)}
+        for g_ in ast.walk(d[0].node):
+            if isinstance(g_, ast.Call) and isinstance(g_.func, ast.Attribute) and g_.func.attr == "get" and ast.unparse(g_.func.value).endswith("_dict") and len(g_.args) == 1:
+                up = par_.get(id(g_))
+                tested = isinstance(up, (ast.BoolOp, ast.If, ast.IfExp, ast.While)) or (isinstance(up, ast.UnaryOp) and isinstance(up.op, ast.Not)) \
+                    or isinstance(up, ast.Assign)
+                rep.oblige("C14.DUAL", f"{name}[presence by membership]", not tested)
+                if tested:
+                    rep.violate(Violation("C14.DUAL", f"C14.DUAL|truthy-item|{name}", f"KeyedSet.{name} decides presence from `{ast.unparse(g_)[:50]}` (truthiness / None-ness of the stored item): a stored falsy item reads as absent", f"{mrel}:{g_.lineno}", f"KeyedSet.{name}"))
         rep.oblige("C14.DUAL", f"{name}[key lookup first]", ok)
         if not ok:
             rep.violate(Violation("C14.DUAL", f"C14.DUAL|order|{name}", f"KeyedSet.{name} no longer tries the argument as a key before extracting a key from it", f"{mrel}:{d[0].node.lineno}", f"KeyedSet.{name}"))
